@@ -22,10 +22,67 @@ def install(E):
         f = Fraction(x)
         return z3.RealVal(str(f.numerator) + '/' + str(f.denominator)) if f.denominator != 1 else z3.RealVal(f.numerator)
 
+    # ---- 'uf' mode: floats are uninterpreted values and every float operation an uninterpreted FUNCTION of its operands
+    # (congruence: equal operands give equal results).  Over-approximates IEEE like 'havoc', but two executions of the same
+    # computation on the same inputs provably agree, so that whole runs can be related to each other.
+    _UF = {}
+    RS = z3.RealSort(); IS = z3.IntSort(); BS = z3.BoolSort()
+    def ufun(name, *sorts):
+        f = _UF.get(name)
+        if f is None: f = z3.Function(name, *sorts); _UF[name] = f
+        return f
+    def ufv(name, bits, args, tn):
+        return SF(ufun('uf_%s_%d_%d' % (name, bits, len(args)), *([RS] * len(args) + [RS]))(*[a.t if isinstance(a, SF) else a for a in args]), bits, taint=tn)
+    E.fp_ufv = staticmethod(ufv)
+    # values whose only symbolic part is the CHOICE among concrete alternatives (ite trees with concrete leaves, from select /
+    # min / max / merged paths) are computed leaf by leaf with the concrete semantics, so that the same computation performed
+    # before and after the choice was decided yields comparable terms
+    def ctree(t, depth=0):
+        if z3.is_rational_value(t) or z3.is_int_value(t):
+            return ('c', Fraction(t.numerator_as_long(), t.denominator_as_long()) if z3.is_rational_value(t) else Fraction(t.as_long()))
+        if depth < 4 and z3.is_app_of(t, z3.Z3_OP_ITE):
+            c, a, b = t.children()
+            ca = ctree(a, depth + 1); cb = ctree(b, depth + 1)
+            if ca is not None and cb is not None: return ('ite', c, ca, cb)
+        return None
+    def ct_leaves(ct): return 1 if ct[0] == 'c' else ct_leaves(ct[2]) + ct_leaves(ct[3])
+    def ct_apply(f, cts):
+        """f: python function of the concrete leaf values -> python value (float / int / bool); returns a tree of results"""
+        for i, ct in enumerate(cts):
+            if ct[0] == 'ite':
+                return ('ite', ct[1], ct_apply(f, cts[:i] + [ct[2]] + cts[i + 1:]), ct_apply(f, cts[:i] + [ct[3]] + cts[i + 1:]))
+        return ('c', f(*[ct[1] for ct in cts]))
+    def ct_term(ct, leaf):
+        if ct[0] == 'c': return leaf(ct[1])
+        return z3.If(ct[1], ct_term(ct[2], leaf), ct_term(ct[3], leaf))
+    def ct_args(args):
+        cts = []
+        n = 1
+        for a in args:
+            t = a.t if isinstance(a, SF) else (zt(a) if isinstance(a, SV) else None)
+            if t is None:
+                if isinstance(a, (int, float)) and a == a and a not in (math.inf, -math.inf): cts.append(('c', Fraction(a))); continue
+                return None
+            ct = ctree(t)
+            if ct is None: return None
+            n *= ct_leaves(ct)
+            if n > 16: return None
+            cts.append(ct)
+        return cts if any(c[0] == 'ite' for c in cts) else None
+    def fleaf(v):
+        if isinstance(v, float) and (v != v or v in (math.inf, -math.inf)):
+            return ufun('uf_special', IS, RS)(z3.IntVal(0 if v != v else (1 if v > 0 else 2)))
+        return rv(Fraction(v))
+    def tofloat(fr, bits): return rnd(float(fr), bits)
+    E.fp_ct = staticmethod(lambda args: ct_args(args))
     def lift(s, v, bits):
         """python float -> SF of the current mode"""
         if isinstance(v, SF): return v
         m = mode(s)
+        if m == 'uf':
+            if v != v: return SF(ufun('uf_special', IS, RS)(z3.IntVal(0)), bits)
+            if v in (math.inf, -math.inf): return SF(ufun('uf_special', IS, RS)(z3.IntVal(1 if v > 0 else 2)), bits)
+            return SF(rv(Fraction(v)), bits)
         if m == 'exact': return SF(z3.FPVal(v, sort_of(bits)), bits)
         if m == 'real':
             if v != v or v in (math.inf, -math.inf): raise EngineError('non-finite float constant in real-error mode')
@@ -44,6 +101,7 @@ def install(E):
             if hi is not None: cs.append(z3.fpLEQ(t, z3.FPVal(hi, sort_of(bits))))
             s.add_pc(st, z3.And(*cs))
             return SF(t, bits, lo, hi, taint=taint)
+        if m == 'uf': return SF(z3.Real(nm), bits, taint=taint)
         if m == 'real':
             t = z3.Real(nm)
             if lo is None or hi is None:
@@ -140,6 +198,12 @@ def install(E):
         a = lift(s, a, bits); b = lift(s, b, bits)
         tn = tainted(a, b)
         if m == 'havoc': return SF(None, bits, taint=tn)
+        if m == 'uf':
+            cts = ct_args([a, b])
+            if cts is not None:
+                r = ct_apply(lambda x, y: fbin(s, st, op, tofloat(x, bits), tofloat(y, bits), bits), cts)
+                return SF(ct_term(r, fleaf), bits, taint=tn)
+            return ufv(op, bits, [a, b], tn)
         if m == 'exact':
             f = {'fadd': z3.fpAdd, 'fsub': z3.fpSub, 'fmul': z3.fpMul, 'fdiv': z3.fpDiv}.get(op)
             if f is None: return SF(z3.fpRem(a.t, b.t), bits, taint=tn)
@@ -188,6 +252,10 @@ def install(E):
         if not isinstance(a, SF): return -a
         m = mode(s)
         if m == 'havoc': return SF(None, bits, taint=a.taint)
+        if m == 'uf':
+            cts = ct_args([a])
+            if cts is not None: return SF(ct_term(ct_apply(lambda x: -tofloat(x, bits), cts), fleaf), bits, taint=a.taint)
+            return ufv('neg', bits, [a], a.taint)
         if m == 'exact': return SF(z3.fpNeg(a.t), bits, taint=a.taint)
         return SF(-a.t, bits, None if a.hi is None else -a.hi, None if a.lo is None else -a.lo, exact=a.exact, taint=a.taint)
     E.fneg = fneg
@@ -199,6 +267,10 @@ def install(E):
         if not isinstance(a, SF): return abs(a)
         m = mode(s)
         if m == 'havoc': return SF(None, bits, taint=a.taint)
+        if m == 'uf':
+            cts = ct_args([a])
+            if cts is not None: return SF(ct_term(ct_apply(lambda x: abs(tofloat(x, bits)), cts), fleaf), bits, taint=a.taint)
+            return ufv('abs', bits, [a], a.taint)
         if m == 'exact': return SF(z3.fpAbs(a.t), bits, taint=a.taint)
         lo = Fraction(0) if a.lo <= 0 <= a.hi else min(abs(a.lo), abs(a.hi))
         return SF(z3.If(a.t >= 0, a.t, -a.t), bits, lo, max(abs(a.lo), abs(a.hi)), exact=a.exact, taint=a.taint)
@@ -221,6 +293,21 @@ def install(E):
         if m == 'havoc':
             st.havoc_used = True
             return s.newbool('fcmp', taint='havoc')
+        if m == 'uf':
+            cts = ct_args([a, b])
+            if cts is not None:
+                r = ct_apply(lambda x, y: bool(fcmp(s, st, pred, tofloat(x, bits), tofloat(y, bits), bits)), cts)
+                return SV(z3.simplify(ct_term(r, lambda v: z3.BoolVal(bool(v)))), 0, 1, taint=tn)
+            if a.t.eq(b.t):
+                # the same value on both sides: decided up to NaN
+                if pred in ('ueq', 'ule', 'uge'): return 1
+                if pred in ('one', 'olt', 'ogt'): return 0
+                o = ufun('uf_ord_%d' % bits, RS, BS)(a.t)
+                st.havoc_used = True
+                if pred in ('oeq', 'ole', 'oge', 'ord'): return SV(o, 0, 1, taint='havoc')
+                return SV(z3.Not(o), 0, 1, taint='havoc')        # une, ult, ugt, uno
+            st.havoc_used = True
+            return SV(ufun('uf_cmp_%s_%d' % (pred, bits), RS, RS, BS)(a.t, b.t), 0, 1, taint='havoc')
         if m == 'exact':
             un = z3.Or(z3.fpIsNaN(a.t), z3.fpIsNaN(b.t))
             if pred == 'ord': return SV(z3.Not(un), 0, 1, taint=tn)
@@ -261,6 +348,10 @@ def install(E):
         if isinstance(x, int): return rnd(float(x), bits) if abs(x) < 2 ** 1000 else math.inf
         m = mode(s)
         if m == 'havoc': return SF(None, bits, taint=x.taint)
+        if m == 'uf':
+            cts = ct_args([x])
+            if cts is not None: return SF(ct_term(ct_apply(lambda v: rnd(float(v), bits), cts), fleaf), bits, taint=x.taint)
+            return SF(ufun('uf_i2f_%d' % bits, IS, RS)(zt(x)), bits, taint=x.taint)
         if m == 'exact':
             return SF(z3.fpRealToFP(RNE, z3.ToReal(zt(x)), sort_of(bits)), bits, x.lo, x.hi, taint=x.taint)
         r = rounded(s, st, z3.ToReal(zt(x)), Fraction(x.lo), Fraction(x.hi), bits, x.taint, zt(x) if s.cfg.get('fp_int_exact', True) else True)
@@ -281,6 +372,23 @@ def install(E):
             if hr is not None and signed: v = s.newsym(st, 'fptoi', max(hr[0], lo), min(hr[1], hi))
             else: v = s.newsym(st, 'fptoi', *rng(w))
             v.taint = 'havoc'; return v
+        if m == 'uf':
+            cts = ct_args([x])
+            if cts is not None:
+                def conv(v):
+                    fv = tofloat(v, bits)
+                    if not (lo - 1 < fv < hi + 1): raise s.fail(st, 'ub', 'float to integer conversion out of range (%r)' % fv)
+                    return int(fv)
+                r = ct_apply(conv, cts)
+                v = SV(ct_term(r, lambda q: z3.IntVal(int(q))), lo, hi, taint=x.taint)
+                return v if signed else s.fromunsigned(v, w)
+            t = ufun('uf_f2i_%d_%d' % (w, 1 if signed else 0), RS, IS)(x.t)
+            lo2, hi2 = rng(w) if signed else (0, (1 << w) - 1)
+            hr = getattr(st, 'havoc_range', None)
+            if hr is not None and signed: lo2, hi2 = max(hr[0], lo2), min(hr[1], hi2)
+            s.add_pc(st, z3.And(t >= lo2, t <= hi2))
+            v = SV(t, lo2, hi2, taint='havoc')
+            return v if signed else s.fromunsigned(v, w)
         if m == 'exact':
             bv = z3.fpToSBV(RTZ, x.t, z3.BitVecSort(w)) if signed else z3.fpToUBV(RTZ, x.t, z3.BitVecSort(w))
             iv = z3.BV2Int(bv, is_signed=signed)
@@ -313,6 +421,7 @@ def install(E):
         if not isinstance(x, SF): return x
         m = mode(s)
         if m == 'havoc': return SF(None, 64, taint=x.taint)
+        if m == 'uf': return SF(x.t, 64, taint=x.taint)      # widening is exact: the value is kept
         if m == 'exact': return SF(z3.fpFPToFP(RNE, x.t, z3.Float64()), 64, x.lo, x.hi, taint=x.taint)
         return SF(x.t, 64, x.lo, x.hi, exact=x.exact, taint=x.taint)
     E.fp_ext = fp_ext
@@ -320,6 +429,10 @@ def install(E):
         if not isinstance(x, SF): return f32(x)
         m = mode(s)
         if m == 'havoc': return SF(None, 32, taint=x.taint)
+        if m == 'uf':
+            cts = ct_args([x])
+            if cts is not None: return SF(ct_term(ct_apply(lambda v: f32(float(v)), cts), fleaf), 32, taint=x.taint)
+            return ufv('trunc', 32, [x], x.taint)
         if m == 'exact': return SF(z3.fpFPToFP(RNE, x.t, z3.Float32()), 32, x.lo, x.hi, taint=x.taint)
         return rounded(s, st, x.t, x.lo, x.hi, 32, x.taint, x.exact)
     E.fp_trunc = fp_trunc
@@ -331,6 +444,7 @@ def install(E):
             return float(math.floor(x)) if how == 'floor' else float(math.ceil(x))
         m = mode(s)
         if m == 'havoc': return SF(None, bits, taint=x.taint)
+        if m == 'uf': return ufv(how, bits, [x], x.taint)
         if m == 'exact':
             rm = {'round': z3.RNA(), 'floor': z3.RTN(), 'ceil': z3.RTP()}[how]
             return SF(z3.fpRoundToIntegral(rm, x.t), bits, taint=x.taint)
